@@ -14,6 +14,16 @@ from vf import tlc as tlcmod
 from vf.core import quiet
 
 NAN = 99
+TINY = 97
+
+
+def _val(v):
+    re, im = v
+    if re == NAN:
+        return np.nan
+    if re == TINY:
+        return 2.0 ** -40
+    return complex(re, im) if im else float(re)
 
 
 def q(v):
@@ -26,13 +36,14 @@ def check_instance(ift, inst, jaxenv=None, form="identity"):
     out = []
     size = len(inst["samples"][0])
     dom = ift.DomainTuple.make(ift.UnstructuredDomain(size))
-    arrs = [np.array([np.nan if v == NAN else float(v) for v in s]) for s in inst["samples"]]
+    cplx = bool(inst.get("cplx"))
+    arrs = [np.array([_val(v) for v in s], dtype=complex if cplx else float) for s in inst["samples"]]
     mdom = ift.MultiDomain.make({"x": dom})
     if form == "identity":
-        lh = ift.GaussianEnergy(data=ift.full(dom, 0.)).ducktape("x")
+        lh = ift.GaussianEnergy(data=ift.full(dom, 0j if cplx else 0.)).ducktape("x")
         lat = arrs
     else:
-        lh = ift.GaussianEnergy(data=ift.full(dom, 1.), inverse_covariance=ift.ScalingOperator(dom, 0.25)).ducktape("x")
+        lh = ift.GaussianEnergy(data=ift.full(dom, 1. + 0j if cplx else 1.), inverse_covariance=ift.ScalingOperator(dom, 0.25)).ducktape("x")
         lat = [2. * a + 1. for a in arrs]
     sl = ift.SampleList([ift.MultiField.from_dict({"x": ift.makeField(dom, a)}) for a in lat], domain=mdom)
     try:
@@ -45,31 +56,35 @@ def check_instance(ift, inst, jaxenv=None, form="identity"):
         nd, ni = vals["ndof"][cat][key], vals["nigndof"][cat][key]
 
         def close(a, b):
-            return abs(a - b) <= 1e-12 * max(1., abs(b))
+            return abs(a - b) <= 1e-10 * max(1., abs(b))
+        wantmean = complex(q(inst["mean"]), q(inst["meanim"])) if cplx else q(inst["mean"])
         if not close(float(rc["mean"]), q(inst["redchi"])):
             out.append("%s: reduced chi-square %r, the sample average of sum|r|^2/ndof is %r" % (cat, float(rc["mean"]), q(inst["redchi"])))
-        if not close(float(sm["mean"]), q(inst["mean"])):
-            out.append("%s: mean %r, the sample average of sum r/ndof is %r" % (cat, float(sm["mean"]), q(inst["mean"])))
+        if not close(complex(sm["mean"]), wantmean):
+            out.append("%s: mean %r, the sample average of sum r/ndof is %r" % (cat, complex(sm["mean"]), wantmean))
         if int(nd) != inst["ndof"] or int(ni) != inst["nign"]:
             out.append("%s: ndof/ignored %s/%s, expected %s/%s" % (cat, nd, ni, inst["ndof"], inst["nign"]))
-        if len(arrs) > 1 and rc["std"] is not None:
+        if len(arrs) > 1 and rc["std"] is not None and not cplx:
             if not close(float(rc["std"]) ** 2, q(inst["redchivar"])) or not close(float(sm["std"]) ** 2, q(inst["meanvar"])):
                 out.append("%s: spread of the per-sample values (%r, %r)^2 differs from the unbiased variances (%r, %r)" % (
                     cat, float(rc["std"]), float(sm["std"]), q(inst["redchivar"]), q(inst["meanvar"])))
     if jaxenv is not None and inst["nign"] == 0:
         jax, jnp, jft, ms = jaxenv
-        samples = jft.Samples(pos=jft.Vector({"x": jnp.zeros(size)}), samples=jft.Vector({"x": jnp.asarray(np.stack(arrs))}))
+        samples = jft.Samples(pos=jft.Vector({"x": jnp.zeros(size, dtype=complex if cplx else float)}), samples=jft.Vector({"x": jnp.asarray(np.stack(arrs))}))
         if form == "identity":
             st = ms.reduced_residual_stats(samples)
         else:
             jl = jft.Gaussian(jnp.ones(size), noise_std_inv=lambda x: 0.5 * x)
-            samples = jft.Samples(pos=jft.Vector({"x": jnp.zeros(size)}), samples=jft.Vector({"x": jnp.asarray(np.stack([1. - 2. * a for a in arrs]))}))   # jft residual = (data - x) / sigma
+            samples = jft.Samples(pos=jft.Vector({"x": jnp.zeros(size, dtype=complex if cplx else float)}), samples=jft.Vector({"x": jnp.asarray(np.stack([1. - 2. * a for a in arrs]))}))   # jft residual = (data - x) / sigma
             st, _ = ms.minisanity(samples, lambda v: jft.Vector({"x": jl.normalized_residual(v.tree["x"])}))
         leaf = st.tree["x"] if hasattr(st, "tree") else st["x"]
-        m, rx, ndj = float(leaf.mean[0]), float(leaf.reduced_chisq[0]), int(leaf.ndof)
-        if abs(m - q(inst["mean"])) > 1e-12 or abs(rx - q(inst["redchi"])) > 1e-12 or ndj != inst["ndof"]:
-            out.append("nifty.re reduced_residual_stats gives mean %r, reduced chi-square %r, ndof %r; the classic definition gives %r, %r, %r" % (
-                m, rx, ndj, q(inst["mean"]), q(inst["redchi"]), inst["ndof"]))
+        m, rx, ndj = complex(leaf.mean[0]), float(leaf.reduced_chisq[0]), int(leaf.ndof)
+        # a complex entry counts as two degrees of freedom in nifty.re (documented): chi-square per real degree of freedom
+        fac = 2 if cplx else 1
+        wantmean = complex(q(inst["mean"]), q(inst["meanim"]))
+        if abs(m - wantmean) > 1e-10 or abs(rx - q(inst["redchi"]) / fac) > 1e-10 or ndj != fac * inst["ndof"]:
+            out.append("nifty.re reduced_residual_stats gives mean %r, reduced chi-square %r, ndof %r; the classic definition gives %r, %r, %r%s" % (
+                m, rx, ndj, wantmean, q(inst["redchi"]), inst["ndof"], " (complex entries count twice in nifty.re)" if cplx else ""))
     return out
 
 
@@ -81,7 +96,7 @@ def check_two_keys(ift, a, b):
     mdom = ift.MultiDomain.make(doms)
     fl = []
     for sa, sb in zip(a["samples"], b["samples"]):
-        fl.append(ift.MultiField.from_dict({k: ift.makeField(doms[k], np.array([np.nan if v == NAN else float(v) for v in s])) for k, s in (("a", sa), ("b", sb))}))
+        fl.append(ift.MultiField.from_dict({k: ift.makeField(doms[k], np.array([_val(v) for v in s], dtype=float)) for k, s in (("a", sa), ("b", sb))}))
     try:
         _, vals = ift.extra.minisanity(lh, ift.SampleList(fl, domain=mdom), terminal_colors=False, return_values=True)
     except Exception as e:
@@ -114,9 +129,9 @@ def run(ctx):
         jaxenv = None
         ctx.assume("nifty.re could not be imported: the JAX diagnostics are not compared")
     insts = []
-    for size, ns, nv in ((2, 1, 4), (2, 2, 4), (3, 1, 4), (3, 2, 2), (2, 3, 2)) + (((3, 3, 2), (4, 1, 4), (4, 2, 2)) if not qk else ()):
-        r = ctx.tlc("Minisanity", "CONSTANTS Size = %d\nNSamples = %d\nNVals = %d\nSPECIFICATION Spec\nINVARIANT Law\nINVARIANT Emit\n" % (size, ns, nv),
-                    label="size %d, %d samples, %d values" % (size, ns, nv), workers=1, timeout=2500)
+    for size, ns, nv, cx in ((2, 1, 4, 0), (2, 2, 2, 0), (3, 1, 2, 0), (2, 3, 2, 0), (2, 1, 4, 1), (2, 2, 2, 1)) + (((3, 2, 2, 0), (3, 3, 2, 0), (4, 1, 2, 0), (3, 2, 2, 1)) if not qk else ()):
+        r = ctx.tlc("Minisanity", "CONSTANTS Size = %d\nNSamples = %d\nNVals = %d\nCplx = %s\nSPECIFICATION Spec\nINVARIANT Law\nINVARIANT Emit\n" % (size, ns, nv, "TRUE" if cx else "FALSE"),
+                    label="size %d, %d samples, %d values%s" % (size, ns, nv, ", complex" if cx else ""), workers=1, timeout=2500)
         insts += r.emitted
     if len(insts) < 200:
         raise tlcmod.MachineryError("too few instances: %d" % len(insts))
@@ -128,12 +143,14 @@ def run(ctx):
                     ctx.violation(dict(kind="diagnostics", what=msg.split(":")[0], form=form), "samples %s (%s): %s" % (inst["samples"], form, msg),
                                   replay=dict(instance=inst, form=form))
         for a, b in zip(insts[::2], insts[1::2]):
-            if len(a["samples"]) == len(b["samples"]):
+            if len(a["samples"]) == len(b["samples"]) and not a.get("cplx") and not b.get("cplx"):
                 for msg in check_two_keys(ift, a, b):
                     ctx.violation(dict(kind="diagnostics-two-keys"), "samples %s / %s: %s" % (a["samples"], b["samples"], msg), replay=dict(pair=[a, b]))
     ctx.traces += len(insts)
     ctx.sample(dict(instance=insts[len(insts) // 2]))
-    ctx.assume("NaN is represented by the marker 99 in the specification; the placement of NaNs and exact zeros is the same in every sample",
+    ctx.assume("complex residuals: nifty.re counts a complex entry as two degrees of freedom (reduced chi-square per real degree of freedom, as its documentation "
+               "says), nifty.cl as one; the two are compared through that factor, the means directly",
+               "NaN is represented by the marker 99, a tiny non-zero value (2^-40) by the marker 97 in the specification; the placement of NaNs and exact zeros is the same in every sample",
                "the classic and the JAX diagnostics are compared where both definitions coincide (real, finite, non-zero entries) and only for mean, reduced chi-square and ndof")
 
 
@@ -160,7 +177,7 @@ def replay(ctx, doc):
 
 def selftest(ctx):
     import nifty.cl as ift
-    r = tlcmod.run("Minisanity", "CONSTANTS Size = 2\nNSamples = 1\nNVals = 4\nSPECIFICATION Spec\nINVARIANT Emit\n", workers=1, timeout=900)
+    r = tlcmod.run("Minisanity", "CONSTANTS Size = 2\nNSamples = 1\nNVals = 4\nCplx = FALSE\nSPECIFICATION Spec\nINVARIANT Emit\n", workers=1, timeout=900)
     inst = next(i for i in r.emitted if i["nign"] == 1)
     with quiet():
         good = check_instance(ift, inst)
